@@ -3118,18 +3118,28 @@ def update_working_tree(
             path = change.old.path
             if not validate_path(path, validate_path_element):
                 continue
-
-            full_path = _tree_to_fs_path(repo_path, path, tree_encoding)
+            # Never delete through a symlinked leading directory: what is
+            # behind it is outside the work tree and not ours to remove (git
+            # skips such entries as well).
             try:
-                delete_stat: os.stat_result | None = os.lstat(full_path)
-            except FileNotFoundError:
-                delete_stat = None
-            except OSError as e:
-                raise OSError(
-                    f"Cannot access {path.decode('utf-8', errors='replace')}: {e}"
-                ) from e
+                verify_leading_dirs(path, [], repo_path)
+            except InvalidPathError:
+                removable = False
+            else:
+                removable = True
 
-            _transition_to_absent(repo, path, full_path, delete_stat, index)
+            if removable:
+                full_path = _tree_to_fs_path(repo_path, path, tree_encoding)
+                try:
+                    delete_stat: os.stat_result | None = os.lstat(full_path)
+                except FileNotFoundError:
+                    delete_stat = None
+                except OSError as e:
+                    raise OSError(
+                        f"Cannot access {path.decode('utf-8', errors='replace')}: {e}"
+                    ) from e
+
+                _transition_to_absent(repo, path, full_path, delete_stat, index)
 
         if change.type in (
             CHANGE_ADD,
